@@ -4,8 +4,11 @@ import (
 	"testing"
 	"time"
 
+	"github.com/golang-jwt/jwt/v4"
 	"github.com/simpleiot/simpleiot/client"
 	"github.com/simpleiot/simpleiot/data"
+
+	"verif/internal/stats"
 )
 
 // a user that was moved (old edge deleted, new edge live) can log in
@@ -41,4 +44,38 @@ func TestRegressMovedUserCanLogIn(t *testing.T) {
 	if err != nil || len(nodes) != 0 {
 		t.Fatalf("user under a deleted group logged in: %v %v", nodes, err)
 	}
+}
+
+// TestEnumTokenExpiresWhileInUse: a token that was accepted while valid is
+// refused once it has expired (an accept-once cache would keep it alive).
+func TestEnumTokenExpiresWhileInUse(t *testing.T) {
+	e := newEnv(t)
+	defer e.close()
+	exp := time.Now().Unix() + 1
+	tok := mint(jwt.SigningMethodHS256, e.key, time.Unix(exp, 0), "someone")
+	c := cred{header: "Bearer " + tok, set: true}
+	routes := [][3]string{{"GET", "/v1/nodes/inst", "all"}, {"POST", "/v1/nodes/inst/points", `[{"type":"value","value":1}]`}, {"GET", "/v1/nodes", ""}}
+	used := 0
+	for _, r := range routes {
+		if time.Now().Unix() > exp {
+			break
+		}
+		if rec := e.do(r[0], r[1], r[2], c); rec.Code == 401 && time.Now().Unix() <= exp {
+			t.Fatalf("%s %s with a valid short-lived token: 401", r[0], r[1])
+		}
+		used++
+	}
+	for time.Now().Unix() <= exp {
+		time.Sleep(50 * time.Millisecond)
+	}
+	time.Sleep(100 * time.Millisecond)
+	e.spy.storeBound(e.in)
+	for _, r := range routes {
+		rec := e.do(r[0], r[1], r[2], c)
+		traffic := e.spy.storeBound(e.in)
+		if rec.Code != 401 || len(traffic) > 0 {
+			t.Fatalf("%s %s with a token that expired after having been used %d times: status %d, bus traffic %v", r[0], r[1], used, rec.Code, traffic)
+		}
+	}
+	stats.Enumerated(int64(2*len(routes)), int64(len(routes)), "tokenExpiresWhileInUse")
 }
